@@ -107,9 +107,17 @@ def build(d):
         bflags = E.bool_items(s, len(edges), d.get("mode", "vars"))
         g = E.mk_graph(n, edges)
         gs = arg if (arg is None or isinstance(arg, list)) else [arg] * n
-        G.division_connected_variable_groups_with_borders(
-            s, group_size=gs, is_border=BoolArray1D(bflags) if d["form"] == "array1d" else bflags, graph=g,
-            use_graph_primitive=d["primitive"])
+        import cspuz
+        saved = (cspuz.config.use_graph_primitive, cspuz.config.use_graph_division_primitive)
+        try:
+            if d.get("config") is not None:
+                # no per-call switch: the division primitive is governed by config.use_graph_division_primitive alone
+                cspuz.config.use_graph_primitive, cspuz.config.use_graph_division_primitive = d["config"]
+            G.division_connected_variable_groups_with_borders(
+                s, group_size=gs, is_border=BoolArray1D(bflags) if d["form"] == "array1d" else bflags, graph=g,
+                use_graph_primitive=None if d.get("config") is not None else d["primitive"])
+        finally:
+            cspuz.config.use_graph_primitive, cspuz.config.use_graph_division_primitive = saved
     if bool(d["primitive"]) != query.has_native(s.constraints):
         raise AssertionError("use_graph_primitive=%s but native operator present=%s" % (d["primitive"], query.has_native(s.constraints)))
     xv = size_vars + ref.collect_vars(bflags)
@@ -164,6 +172,9 @@ def instances(tier, rng):
                     out.append(dict(name="%s/borders/s%d/pr%d" % (nm, ki, prim), fn="borders", form="list" if ki % 2 else "array1d",
                                     n=n, edges=es, size=kind, primitive=prim))
         if 1 <= len(es) <= 4:
+            for cfg in ([True, False], [False, True]):
+                out.append(dict(name="%s/borders/config%d%d" % (nm, cfg[0], cfg[1]), fn="borders", form="list", n=n, edges=es, size="none",
+                                primitive=cfg[1], config=cfg))
             out.append(dict(name="%s/borders/and" % nm, fn="borders", form="list", n=n, edges=es, size="none", primitive=False, mode="and"))
     cells = 6 if tier == "quick" else 8
     for (h, w) in graphs.grid_shapes(cells):
